@@ -86,7 +86,15 @@ def verify_functions(prog, S, qnames, timeout_ms, jobs):
     for q, cp in todo:
         E = Engine(prog, S)
         t0 = time.time()
-        info = verify.verify_function(E, q)
+        try:
+            info = verify.verify_function(E, q)
+        except (CheckerError, KeyError) as e:
+            # the contract no longer attaches to the code (changed shape / unmodelled construct):
+            # the function is outside the verifier's reach on this tree; the caller falls back to the bounded native check
+            out[q] = {"function": q, "error": f"{type(e).__name__}: {e}", "attach": isinstance(e, (AttachError, KeyError)),
+                      "results": [], "instances": 0, "source_sha": "", "vcgen_s": 0, "solve_s": 0, "dropped": [], "abstracted": [],
+                      "assumptions": [], "inlined": [], "contracts_used": [], "cached": False}
+            continue
         gen_s = time.time() - t0
         t1 = time.time()
         res = solve.discharge(E, E.obligations, jobs=jobs, timeout_ms=timeout_ms)
